@@ -217,6 +217,67 @@ func (c *c18ctx) events(fd *ast.FuncDecl) []string {
 	return out
 }
 
+// paths enumerates the event sequences of fd along its control-flow paths: both branches of every if statement are
+// followed, a return statement ends its path, loop bodies are taken once, everything else contributes its events in
+// source order (helpers inlined by events). At most 64 paths are followed.
+func (c *c18ctx) paths(fd *ast.FuncDecl) [][]string {
+	evOf := func(st ast.Stmt) []string {
+		synth := &ast.FuncDecl{Name: fd.Name, Recv: fd.Recv, Type: fd.Type, Body: &ast.BlockStmt{List: []ast.Stmt{st}}}
+		return c.events(synth)
+	}
+	evExpr := func(e ast.Expr) []string {
+		if e == nil {
+			return nil
+		}
+		return evOf(&ast.ExprStmt{X: e})
+	}
+	extend := func(open [][]string, ev []string) [][]string {
+		if len(ev) == 0 {
+			return open
+		}
+		out := make([][]string, len(open))
+		for i, p := range open {
+			out[i] = append(append([]string{}, p...), ev...)
+		}
+		return out
+	}
+	var done [][]string
+	var walk func(stmts []ast.Stmt, open [][]string) [][]string
+	walk = func(stmts []ast.Stmt, open [][]string) [][]string {
+		for _, st := range stmts {
+			if len(open) == 0 {
+				return open
+			}
+			if len(open)+len(done) > 64 {
+				open = open[:1]
+			}
+			switch v := st.(type) {
+			case *ast.BlockStmt:
+				open = walk(v.List, open)
+			case *ast.IfStmt:
+				if v.Init != nil {
+					open = extend(open, evOf(v.Init))
+				}
+				open = extend(open, evExpr(v.Cond))
+				thenOpen := walk(v.Body.List, open)
+				elseOpen := open
+				if v.Else != nil {
+					elseOpen = walk([]ast.Stmt{v.Else}, open)
+				}
+				open = append(append([][]string{}, thenOpen...), elseOpen...)
+			case *ast.ReturnStmt:
+				done = append(done, extend(open, evOf(v))...)
+				open = nil
+			default:
+				open = extend(open, evOf(st))
+			}
+		}
+		return open
+	}
+	rest := walk(fd.Body.List, [][]string{{}})
+	return append(done, rest...)
+}
+
 func (c *c18ctx) isMapVar(name string) bool {
 	t, ok := c.pkgVars[name]
 	return ok && strings.Contains(t, "map[")
@@ -653,6 +714,18 @@ func init() {
 		tx := x.c18context("proxy/tcp")
 		if fd := x.funcDecl("proxy/tcp", "Server", "Shutdown"); fd != nil {
 			x.defStrList("tcpShutdownEvents", tx.events(fd))
+			// the same events path by path: both branches of every `if` are walked, a `return` ends its path
+			// (an early-return branch contributes its own sequence), unexported helpers are inlined
+			paths := tx.paths(fd)
+			var rows []string
+			for _, p := range paths {
+				var q []string
+				for _, e := range p {
+					q = append(q, leanStr(e))
+				}
+				rows = append(rows, "["+strings.Join(q, ", ")+"]")
+			}
+			x.defRaw("def tcpShutdownPaths : List (List String) := [" + strings.Join(rows, ", ") + "]")
 		}
 		// ---- the gRPC server: the struct with a *grpc.Server field; its Shutdown ----
 		grpcType := ""
